@@ -73,7 +73,14 @@ def gen_matrix(rng, shape=None, kind=None, max_n=10, max_m=8):
         B = [[ri(-1, 1) for _ in range(m)] for _ in range(n)]
     else:
         raise ValueError(kind)
-    return np.array(B, dtype=float).reshape(n, m), kind
+    B = np.array(B, dtype=float).reshape(n, m)
+    # overall scale: the properties quantify over ALL finite matrices, so very small and very large magnitudes
+    # must behave like ordinary ones (powers of two keep every entry exactly representable)
+    if rng.random() < 0.2:
+        e = rng.choice([-60, -40, -20, -8, 8, 20, 40])
+        B = B * (2.0 ** e)
+        kind = kind + f"*2^{e}"
+    return B, kind
 
 
 def gen_generic_matrix(rng, n, m, lo=-9, hi=9):
